@@ -20,7 +20,11 @@ CFG = {
     "weights": {"new_space": 1.2, "del_space": 0.5, "new_cells": 2.5, "set_formula": 2.2, "set_cached": 0.5,
                 "del_cells": 1.0, "rename_cells": 0.4, "add_bases": 1.2, "remove_bases": 0.8, "set_ref": 3.0,
                 "del_ref": 1.0, "set_mref": 1.0, "del_mref": 0.3, "set_value": 1.0, "clear": 0.4,
-                "eval": 6.0, "evalall": 0.8, "bad": 0.2},
+                "eval": 6.0, "evalall": 0.8, "bad": 0.2, "set_param": 0.5, "eval_item": 1.0},
+    # extended vocabulary (struct_props / structworld): formulas that call AND read, space formulas that read
+    # references (parent's by attribute path, by name, ...), extended motif programs, the structured families
+    # of edit sequences, more ways to clear one element
+    "ext": True,
 }
 
 RULE = ("random interleavings (14-30 ops) of edits (value assignment/clearing; references created, changed, shadowed, "
@@ -36,8 +40,17 @@ KNOWN_CAUGHT = "C02-caught-failure-untracked"
 KNOWN_DELETED = "C02-deleted-object-in-formula-globals"
 
 
-def classify(deep_hit, live=None, query=None, result=None, want=None):
+KNOWN_DELSPACE = "C02-deleted-space-uncached-cells"
+
+
+def classify(deep_hit, live=None, query=None, result=None, want=None, ops=None):
     """known findings are recognised by their specific trigger"""
+    if (want is not None and want.startswith("err Formula Deleted") and result and result.startswith("ok")
+            and ops is not None and S.deleted_space_held_uncached(ops)):
+        # a space holding an uncached cells was deleted: on_delete clears the values the cells of the space
+        # hold; an uncached cells holds none, and its object node - with what cached callers elsewhere computed
+        # through it - stays in the trace graph
+        return KNOWN_DELSPACE
     if want is not None and want.startswith("err Formula Deleted") and result and result.startswith("ok"):
         # a formula calls a cells (or reads a space) through a reference whose target has been deleted:
         # the globals of the formula still hold the bound method of the deleted implementation
@@ -67,13 +80,14 @@ class H(S.Hooks):
         self.deep_before = deep_counter.count
 
     def before(self, live, ops, k, op, stats):
-        if op[0] == "eval":
+        if op[0] in ("eval", "eval_item"):
             self.deep_before = deep_counter.count
 
     def after(self, live, ops, k, op, result, out, stats):
-        if op[0] != "eval":
+        if op[0] not in ("eval", "eval_item"):
             return
-        q = (op[1], op[2], op[3])
+        q = tuple(op)
+        cell = (op[1], op[2]) if op[0] == "eval" else (op[1], op[3])
         if q in self.last and self.last[q] != result and result.startswith("ok"):
             self.nontrivial = True
         self.last[q] = result
@@ -86,8 +100,9 @@ class H(S.Hooks):
         deep_hit = deep_counter.count > deep0
         stats["oracle_fresh_queries"] += 1
         if want != result and not ("Deep" in want or "Deep" in result):
-            out.fail("%s.%s(%s) returns %s but a model to which only the edits were applied returns %s" % (
-                op[1], op[2], op[3], result, want), S.hist_json(ops, k), key=classify(deep_hit, live, (op[1], op[2]), result, want))
+            what = "%s.%s(%s)" % (op[1], op[2], op[3]) if op[0] == "eval" else "%s[%s].%s(%s)" % tuple(op[1:5])
+            out.fail("%s returns %s but a model to which only the edits were applied returns %s" % (
+                what, result, want), S.hist_json(ops, k), key=classify(deep_hit, live, cell, result, want, ops))
 
     def end(self, live, ops, out, stats):
         deep0 = deep_counter.count
@@ -102,9 +117,15 @@ class H(S.Hooks):
             w = theirs.get(q)
             if w is not None and w != v and not ("Deep" in w or "Deep" in v):
                 p, rest = q.rsplit(".", 1)
+                cn, arg = rest.split("(")[0], int(rest.split("(")[1][:-1])
+                if p.endswith("]"):         # "S[key].c(x)": a cells of an ItemSpace
+                    p, key = p[:-1].split("[")
+                    last = ["eval_item", p, int(key), cn, arg]
+                else:
+                    last = ["eval", p, cn, arg]
                 out.fail("%s returns %s but a model to which only the edits were applied returns %s" % (q, v, w),
-                         S.hist_json(ops + [["eval", p, rest.split("(")[0], int(rest.split("(")[1][:-1])]]),
-                         key=classify(deep_counter.count > deep0, live, (p, rest.split("(")[0]), v, w))
+                         S.hist_json(ops + [last]),
+                         key=classify(deep_counter.count > deep0, live, (p, cn), v, w, ops))
                 break
 
 
